@@ -255,7 +255,7 @@ size_t g_strtok_next;  /* out: index of the saved pointer: *saveptr == S + next 
 /* part of the postcondition that does not mention *saveptr (also what strtok shows to its caller) */
 #define C08_STRTOK_CORE_POST(r, delim)                                                                \
     (g_strtok_S == NULL ? (r) == NULL :                                                               \
-     (g_strtok_t <= g_strtok_L &&                                                                     \
+     (g_strtok_t <= g_strtok_L && g_strtok_S[g_strtok_L] == 0 /* still a string */ &&                \
       /* leading delimiters are skipped */                                                            \
       C08_IMP(g_strtok_k < g_strtok_t, g_strtok_v != 0 && C08_STRTOK_MEMBER(g_strtok_v, delim)) &&    \
       ((r) == NULL                                                                                    \
